@@ -872,6 +872,13 @@ func toString(val interface{}) (string, error) {
 		// quotes around data.
 		return strconv.FormatFloat(rv.Float(), 'f', 0, 64), nil
 	}
+	switch rv.Kind() {
+	case reflect.Map, reflect.Slice, reflect.Array, reflect.Struct, reflect.Func, reflect.Chan:
+		if _, isText := val.(fmt.Stringer); !isText {
+			// e.g. a JSON object or array given for a string leaf
+			return "", fmt.Errorf("cannot coerse '%T' to string", val)
+		}
+	}
 	return fmt.Sprintf("%v", val), nil
 }
 
